@@ -56,7 +56,7 @@ class _ApproximateMarginalLogLikelihood(MarginalLogLikelihood, ABC):
         # Get likelihood term and KL term
         num_batch = approximate_dist_f.event_shape[0]
         log_likelihood = self._log_likelihood_term(approximate_dist_f, target, **kwargs).div(num_batch)
-        kl_divergence = self.model.variational_strategy.kl_divergence().div(self.num_data / self.beta)
+        kl_divergence = self.model.variational_strategy.kl_divergence().mul(self.beta / self.num_data)
 
         # Add any additional registered loss terms
         added_loss = torch.zeros_like(log_likelihood)
